@@ -148,7 +148,7 @@ def lean_step(prop: str, extra_modules: list[str] | None = None, thorough: bool 
             _run([sys.executable, str(VERIF / "gen_root.py")], cwd=VERIF, timeout=60)
         except Exception as e:  # noqa: BLE001
             res.log += f"gen_root: {e!r}\n"
-        mods = [f"Rpft.Props.{prop}"] + (extra_modules or [])
+        mods = [f"Rpft.Props.{prop}"] + [f"Rpft.Props.{q.stem}" for q in sorted((LEAN_DIR / "Rpft" / "Props").glob(f"{prop}_*.lean"))] + (extra_modules or [])
         cmd = ["lake", "build"] + mods + ["rpft_driver"]
         res.cmds.append("cd lean && " + " ".join(cmd))
         t0 = time.time()
@@ -164,13 +164,19 @@ def lean_step(prop: str, extra_modules: list[str] | None = None, thorough: bool 
             res.ok = False
             res.broken.append("forbidden tokens: " + "; ".join(res.forbidden[:5]))
         # axiom audit for this property's theorems
+        # (property theorems live in Props/Cxx.lean and, for large properties, in part files Props/Cxx_<Part>.lean
+        # which Props/Cxx.lean imports or which import it; all of them are built and audited)
         pf = LEAN_DIR / "Rpft" / "Props" / f"{prop}.lean"
+        parts = sorted((LEAN_DIR / "Rpft" / "Props").glob(f"{prop}_*.lean"))
         names = theorem_names(pf) if pf.exists() else []
+        for part in parts:
+            names += theorem_names(part)
         if names:
             audit = LEAN_DIR / ".lake" / f"Audit_{prop}.lean"
             audit.parent.mkdir(exist_ok=True)
             audit.write_text(
-                "import Rpft.Props.%s\n" % prop + "".join(f"#print axioms {n}\n" for n in names)
+                "import Rpft.Props.%s\n" % prop + "".join("import Rpft.Props.%s\n" % part.stem for part in parts)
+                + "".join(f"#print axioms {n}\n" for n in names)
             )
             cmd2 = ["lake", "env", "lean", str(audit)]
             res.cmds.append("cd lean && lake env lean .lake/Audit_%s.lean  (#print axioms × %d)" % (prop, len(names)))
